@@ -92,6 +92,11 @@ def source(sfx, p, with_inner=True, variant=0):
     # a class whose options apply to the classes nested in it, holding a union over a nested class
     L += [f"class NIn{S}(Schema):", "    a: int", "",
           f"class NOut{S}(Schema):", "    __options__ = Options(override=True)", f"    x: Union[NIn{S}, int]", ""]
+    # one Field object shared by two declarations whose types are named by reference (resolved at the first parse)
+    L += [f"SHORT{S} = Field(max_length=3, required=False)",
+          f"class LitA{S}(Schema):", f"    kind: 'KindT{S}' = SHORT{S}", "",
+          f"class LitB{S}(Schema):", f"    name: 'NameT{S}' = SHORT{S}", "",
+          f"KindT{S} = Literal['x']", f"NameT{S} = str", ""]
     L += ["@utype.parse", f"def f{S}(n: int, lst: List[int] = [1], dct: Dict[str, List[int]] = {{'k': [1]}}, leaf: Optional[Leaf] = None, *args: int, **kw: int):",
           "    return {'n': n, 'lst': lst, 'dct': dct, 'leaf': leaf, 'args': list(args), 'kw': kw}", ""]
     L += ["@utype.parse", f"def gen{S}(n: int, acc: List[int] = [0]) -> Generator[int, None, List[int]]:",
@@ -204,6 +209,9 @@ def generate(rng, tier):
             ops.append({"op": "nested_assign", "value": rng.choice(["2", 3, "zz"])})
         elif r < 0.42:
             ops.append({"op": "init", "cls": "Own", "data": rng.choice([{"pet": {"kind": "cat"}}, {}, {"pet": {"name": "rex"}}])})
+        elif r < 0.435:
+            ops.append(rng.choice([{"op": "init", "cls": "LitA", "data": {"kind": "x"}}, {"op": "init", "cls": "LitB", "data": {"name": "abc"}},
+                                   {"op": "init", "cls": "LitB", "data": {"name": "abcd"}}, {"op": "init", "cls": "LitA", "data": {"kind": "y"}}]))
         elif r < 0.45:
             ops.append({"op": "init", "cls": "FD", "data": rng.choice([{}, {"a": [1]}, {"a": "zz", "b": [2]}])})
         elif r < 0.5:
